@@ -2,7 +2,7 @@
 //! triangle ∩ frustum polygon computed by vertex enumeration in the barycentric chart.
 use re::geom::{vertex, Tri};
 use re::math::{vec3, Vec3};
-use re::render::clip::{view_frustum, ClipVec, ClipVert};
+use re::render::clip::{view_frustum, Clip, ClipVec, ClipVert};
 use vlib::*;
 
 type P4 = [f32; 4];
@@ -57,12 +57,35 @@ fn trivial_class(t: &[P4; 3]) -> &'static str {
     if (0..6).any(|i| d.iter().all(|x| x[i] > 0.0)) { "hidden" } else if d.iter().all(|x| x.iter().all(|v| *v <= 0.0)) { "visible" } else { "clipped" }
 }
 
-fn check_single(t: &[P4; 3], r: &mut Report) {
+/// The frustum is the intersection of six half-spaces, in whatever order they are listed, and what has been clipped against
+/// some of them can be clipped against all of them afterwards. order 0: view_frustum::clip; 1..3: Clip::clip with the six
+/// planes permuted; 4: clipped against the four side planes first, the result then against the whole frustum.
+const ORDERS: [[usize; 6]; 4] = [[0, 1, 2, 3, 4, 5], [5, 4, 3, 2, 1, 0], [2, 3, 4, 5, 0, 1], [5, 0, 3, 1, 4, 2]];
+fn clip_order(ts: &[Tri<ClipVert<Attr>>], order: usize) -> Result<Vec<Tri<ClipVert<Attr>>>, String> {
+    if order == 0 { return clip(ts); }
+    caught(|| {
+        let mut out = vec![];
+        if order == 4 {
+            let mut mid = vec![];
+            ts.clip(&view_frustum::PLANES[2..], &mut mid);
+            view_frustum::clip(&mid[..], &mut out);
+        } else {
+            let planes: Vec<_> = ORDERS[order].iter().map(|&k| view_frustum::PLANES[k]).collect();
+            ts.clip(&planes, &mut out);
+        }
+        out
+    })
+}
+
+fn check_single(t: &[P4; 3], r: &mut Report) { check_single_order(t, 0, r) }
+
+fn check_single_order(t: &[P4; 3], order: usize, r: &mut Report) {
     r.eval();
-    let key = |cl: &str| format!("{cl}|{t:?}");
-    let case = || obj! {"kind" => "single", "t" => J::Arr(t.iter().flatten().map(|x| fbits(*x)).collect())};
+    let otag = ["", "|planes reversed", "|side planes first", "|planes shuffled", "|side planes, then re-clipped against the frustum"][order];
+    let key = |cl: &str| format!("{cl}{otag}|{t:?}");
+    let case = || obj! {"kind" => "single", "order" => order, "t" => J::Arr(t.iter().flatten().map(|x| fbits(*x)).collect())};
     let input = mk(t);
-    let out = match clip(std::slice::from_ref(&input)) { Ok(o) => o, Err(p) => { r.violation(key("clip-panic"), format!("clip panicked: {p}"), case()); return; } };
+    let out = match clip_order(std::slice::from_ref(&input), order) { Ok(o) => o, Err(p) => { r.violation(key("clip-panic"), format!("clip panicked: {p}"), case()); return; } };
     let class = trivial_class(t);
     r.h(&format!("class:{class}"));
     r.h(&format!("outputs:{}", out.len()));
@@ -116,7 +139,7 @@ fn check_single(t: &[P4; 3], r: &mut Report) {
     if pa_out < 1e-9 { r.h("visible-part-has-no-area"); if sum > 1e-6 { r.violation(key("area"), format!("visible part has no area but outputs cover {sum:.3e}"), case()); } return; }
     if pa_out - pa_in > 1e-5 { r.h("ill-conditioned(edge almost inside a frustum plane): area judged within the rounding band"); }
     r.margin("area", (pa_in - sum).max(sum - pa_out).max(0.0), 1e-5);
-    if !(sum >= pa_in - 1e-5 && sum <= pa_out + 1e-5) { r.violation(format!("area|{}|{t:?}", if sum < pa { "lost" } else { "excess" }), format!("outputs cover area {sum:.6} of the barycentric chart, the visible part has area {pa:.6} ({} outputs)", out.len()), case()); return; }
+    if !(sum >= pa_in - 1e-5 && sum <= pa_out + 1e-5) { r.violation(format!("area|{}{otag}|{t:?}", if sum < pa { "lost" } else { "excess" }), format!("outputs cover area {sum:.6} of the barycentric chart, the visible part has area {pa:.6} ({} outputs)", out.len()), case()); return; }
     // sample points: each strictly-inside sample is in exactly one output
     let poly = if poly_in.len() >= 3 { poly_in.clone() } else { vec![] };
     if poly.is_empty() { r.nontrivial(); return; }
@@ -131,7 +154,7 @@ fn check_single(t: &[P4; 3], r: &mut Report) {
             if es.iter().any(|e| e.abs() < 1e-5) { near = true; }
             if es.iter().all(|e| *e > 0.0) { n += 1; }
         }
-        if !near && n != 1 { r.violation(format!("coverage|{}|{t:?}", if n == 0 { "gap" } else { "overlap" }), format!("chart point {p:?} inside the visible part lies in {n} output triangles"), case()); return; }
+        if !near && n != 1 { r.violation(format!("coverage|{}{otag}|{t:?}", if n == 0 { "gap" } else { "overlap" }), format!("chart point {p:?} inside the visible part lies in {n} output triangles"), case()); return; }
     }}
     r.nontrivial();
     r.h(&format!("planes-crossed:{}", { let d: Vec<[f64; 6]> = v.iter().map(dists).collect(); (0..6).filter(|&i| d.iter().any(|x| x[i] > 0.0) && d.iter().any(|x| x[i] < 0.0)).count() }));
@@ -192,7 +215,7 @@ fn main() {
     let cfg = Cfg::from_args(|_| "C03".into());
     if cfg.replay.is_some() {
         replay_main(&cfg, |c, r| {
-            if c.get("kind").and_then(|j| j.as_str()) == Some("single") { check_single(&parse_tri(c.get("t").unwrap().as_arr().unwrap()), r) }
+            if c.get("kind").and_then(|j| j.as_str()) == Some("single") { check_single_order(&parse_tri(c.get("t").unwrap().as_arr().unwrap()), c.get("order").and_then(|j| j.as_u64()).unwrap_or(0) as usize, r) }
             else if c.get("kind").and_then(|j| j.as_str()) == Some("color") { check_color_attr(&parse_tri(c.get("t").unwrap().as_arr().unwrap()), r) }
             else { let ts: Vec<[P4; 3]> = c.get("ts").unwrap().as_arr().unwrap().iter().map(|t| parse_tri(t.as_arr().unwrap())).collect(); check_batch(&ts, r) }
         });
@@ -200,7 +223,7 @@ fn main() {
     let quick = cfg.quick();
     let pts = lattice(quick);
     let n = pts.len() as u64;
-    let mut rep = par_range(&cfg, n * n * n, |i, r| check_single(&[pts[(i % n) as usize], pts[(i / n % n) as usize], pts[(i / n / n) as usize]], r));
+    let mut rep = par_range(&cfg, n * n * n, |i, r| { let t = [pts[(i % n) as usize], pts[(i / n % n) as usize], pts[(i / n / n) as usize]]; check_single(&t, r); check_single_order(&t, 1 + (i % 4) as usize, r); });
     rep.set("lattice_points", n);
     // colour attribute (values outside [0,1]) on every 5th triangle
     rep.merge(par_range(&cfg, n * n * n / 5, |j, r| { let i = j * 5 + j % 5; check_color_attr(&[pts[(i % n) as usize], pts[(i / n % n) as usize], pts[(i / n / n) as usize]], r) }));
@@ -211,7 +234,7 @@ fn main() {
         for &x in &c { for &y in &c { for &z in &c { for &ww in &w { off.push([x, y * 1.1, z * 0.93, ww]); } } } }
         let no = off.len() as u64;
         rep.set("off_lattice_points", no);
-        rep.merge(par_range(&cfg, no * no * no, |i, r| { let t = [off[(i % no) as usize], off[(i / no % no) as usize], off[(i / no / no) as usize]]; check_single(&t, r); if i % 7 == 0 { check_color_attr(&t, r); } }));
+        rep.merge(par_range(&cfg, no * no * no, |i, r| { let t = [off[(i % no) as usize], off[(i / no % no) as usize], off[(i / no / no) as usize]]; check_single(&t, r); check_single_order(&t, 1 + (i / 3 % 4) as usize, r); if i % 7 == 0 { check_color_attr(&t, r); } }));
     }
     // magnitude families: the whole lattice (with vertices a hair outside / inside the planes) scaled by 2^-12 and 2^-20
     let near: Vec<P4> = {
